@@ -2031,7 +2031,7 @@ def body_overlap(data) -> Outcome:
     return out
 
 
-def campaigns(tier):
+def _base_campaigns(tier):
     return [
         Campaign("bfs", body_bfs, enumerate=enum_bfs, quick=0, thorough=0, exhaustive=True, shards_quick=13, shards_thorough=13,
                  describe="model x implementation product explored breadth-first to closure: LRUCache max_size 1-3, SimpleCache, "
@@ -2056,3 +2056,12 @@ def campaigns(tier):
 
 
 PREDICATES = {}
+
+
+def campaigns(tier):
+    camps = list(_base_campaigns(tier))
+    if tier == "thorough":  # coverage-guided search over the same structured cases (fuzz/hyp_fuzz.py)
+        from vlib.core import cov_fuzz_campaign
+
+        camps.append(cov_fuzz_campaign(PID, [('seq', 6000)]))
+    return camps
